@@ -234,6 +234,14 @@ def compare(ctx, want, msg, neg, name):
             ctx.check('eor-family', (int(n.afi), int(n.safi)) == want['eor'], sig='C02:%s:eor-wrong-family' % name,
                       info={'got': (int(n.afi), int(n.safi)), 'want': want['eor']})
         return 'eor'
+    if isinstance(msg, EOR) and not want['withdraw'] and not want['announce'] and not any(code in (O.MP_REACH, O.MP_UNREACH) for _, code, _ in want['attrs']):
+        # RFC 4724 2: "an UPDATE message with no reachable NLRI and empty withdrawn NLRI is specified as the End-of-RIB
+        # marker".  Attributes without any NLRI say nothing about any route: reading such a message as the IPv4 End-of-RIB
+        # (ExaBGP does when every attribute is one it ignores) fits that text as well as reporting an empty UPDATE does.
+        ctx.cover('attributes-without-nlri-read-as-eor')
+        n = msg.nlris[0]
+        ctx.check('eor-family', (int(n.afi), int(n.safi)) == (1, 1), sig='C02:%s:eor-wrong-family' % name)
+        return 'eor'
     ok = isinstance(msg, Update)
     ctx.check('is-update', ok, sig='C02:%s:not-an-update:%s' % (name, type(msg).__name__))
     if not ok:
@@ -428,6 +436,9 @@ def h_shaped(ctx, skel, sess, order=None):
     return r
 
 
+EXA_ONLY_CODES = {int(code) for (code, _flag) in Attribute.registered_attributes} - set(O.FLAGS)
+
+
 def h_unshaped(ctx, L, sess):
     neg = S.session('in', **SESSIONS[sess])
     data = ctx.bytes('u', L)
@@ -438,6 +449,12 @@ def h_unshaped(ctx, L, sess):
         ctx.assume(False, 'the oracle classifies the message as well-formed')
     except IndexError:
         ctx.assume(False)
+    for _, code, _ in want['attrs']:
+        c = ctx.concretize(code)
+        if c not in O.FLAGS and c in EXA_ONLY_CODES:
+            # an attribute ExaBGP decodes and the reference decoder does not model (PMSI, tunnel encapsulation, AIGP, BGP-LS,
+            # prefix-SID ...): its syntax is not this oracle's to judge (round trip: C15, refusal: C03/C08)
+            ctx.assume(False, 'unshaped: every attribute present is one the reference decoder models, or one nobody knows')
     ctx.cover('well-formed')
     try:
         msg = Message.unpack(2, data, neg)
@@ -447,6 +464,12 @@ def h_unshaped(ctx, L, sess):
         ctx.check('well-formed-accepted', False, sig='C02:unshaped:well-formed-refused:%d/%d' % (n.code, n.subcode), info={'notify': str(n), 'body': data})
         return ('refused', int(n.code), int(n.subcode))
     if isinstance(msg, Update) and Attribute.CODE.INTERNAL_TREAT_AS_WITHDRAW in msg.data.attributes:
+        if any(bool(ctx.concretize(flags & 0x20)) and code in (O.ORIGIN, O.AS_PATH, O.NEXT_HOP, O.LOCAL_PREF, O.ATOMIC_AGGREGATE) for flags, code, _ in want['attrs']):
+            # Partial bit set on a WELL-KNOWN attribute: RFC 4271 4.3 says it MUST be 0 there, RFC 7606 3.c only names the
+            # Optional and Transitive bits as making an attribute malformed.  Either reading is defensible; ExaBGP treats
+            # the routes as withdrawn (the stricter one).  No obligation on this input.
+            ctx.cover('partial-bit-on-a-well-known-attribute')
+            return 'taw-partial-bit'
         ctx.check('well-formed-not-treat-as-withdraw', False, sig='C02:unshaped:well-formed-treated-as-withdraw', info={'body': data})
         return 'taw'
     r = compare(ctx, want, msg, neg, 'unshaped')
